@@ -56,6 +56,10 @@ func checkC14(r *Result) {
 				if rel.Op == "<" && len(rel.Args) == 2 && rel.Args[0].Op == "call:(time.Time).Sub" && rel.Args[0].Has("call:(github.com/cosmos/cosmos-sdk/types.Context).BlockTime") && rel.Args[1].Op == "const:43200000000000" {
 					return true, true
 				}
+				// the same test written as BlockTime().Before(aggregateTimestamp.Add(12h))
+				if rel.Op == "<" && len(rel.Args) == 2 && rel.Args[0].Op == "call:(github.com/cosmos/cosmos-sdk/types.Context).BlockTime" && rel.Args[1].Op == "call:(time.Time).Add" && len(rel.Args[1].Args) == 2 && rel.Args[1].Args[1].Op == "const:43200000000000" {
+					return true, true
+				}
 				return false, false
 			}},
 			{Name: "decodeErr", Cond: func(rel *Term) (bool, bool) {
